@@ -148,7 +148,7 @@ fn scale_default_axis_metrics(
             for blue in blues {
                 max_height = max_height.max(blue.ascender).max(-blue.descender);
             }
-            let mut dist = fixed_mul(max_height, new_scale - axis.scale).abs();
+            let mut dist = fixed_mul(max_height, new_scale.wrapping_sub(axis.scale)).wrapping_abs();
             dist &= !127;
             if dist == 0 {
                 axis.scale = new_scale;
